@@ -143,7 +143,9 @@ def run_impl(case, copy_inputs=True, strict=False, plain=False):
     inputs = [copies[first[id(a)]] for a in case.inputs]
     fuzzy_in = case.cmd in FUZZY_CONSUMERS
     # plain: the producers hand out plain ndarrays (what a plug-in command that knows nothing of masked arrays returns) - only used when nothing is missing
-    uniq = {i: Producer(numpy.array(numpy.ma.getdata(copies[i])) if plain else copies[i], "I%d" % i, fuzzy_in) for i in copies}
+    def _as_plain(i):
+        return plain is True or (plain == "first" and i == first[id(case.inputs[0])])
+    uniq = {i: Producer(numpy.array(numpy.ma.getdata(copies[i])) if _as_plain(i) else copies[i], "I%d" % i, fuzzy_in) for i in copies}
     prods = [uniq[first[id(a)]] for a in case.inputs]
     kwargs = dict(case.params)
     if how == "one":
@@ -863,6 +865,56 @@ def tile_twin(ctx, c, out, k):
             c.cmd, k, ins[0].size, j, w[j] if w is not None and j < len(w) else None, v[j % m], out6["vis"][1], out["vis"][1]), dict(c.describe(), repeated=k))
 
 
+def huge_twin(ctx, c, out, cells=300000):
+    """the same field repeated until it has some hundred thousand cells (beyond any block size, cache limit or fast-path threshold a body may have), in
+    row-major and in column-major layout: the large result is the small one repeated, and the inputs are what they were"""
+    a0 = c.inputs[0]
+    k = cells // max(1, a0.size) + 1
+    reps = (k,) + (1,) * (a0.ndim - 1)
+    small = out["result"]
+    want_d = numpy.tile(numpy.ma.getdata(small), reps)
+    want_m = numpy.tile(numpy.ma.getmaskarray(small), reps)
+    for layout in ("C", "F"):
+        if layout == "F" and a0.ndim < 2:
+            continue
+        ids = {}
+
+        def big(a):
+            d, m = numpy.tile(numpy.ma.getdata(a), reps), numpy.tile(numpy.ma.getmaskarray(a), reps)
+            if layout == "F":
+                d, m = numpy.asfortranarray(d), numpy.asfortranarray(m)
+            return numpy.ma.array(d, mask=m)
+        ins = [ids.setdefault(id(a), big(a)) for a in c.inputs]
+        before = [(numpy.ma.getdata(a).copy(), numpy.ma.getmaskarray(a).copy()) for a in ins]
+        o = run_impl(Case(c.cmd, c.params, ins), copy_inputs=False)
+        ctx.count("huge_field_twins")
+        desc = dict(c.describe(), repeated=k, cells=int(ins[0].size), layout=layout)
+        if o["status"] != "ok" or not isinstance(o.get("result"), numpy.ndarray):
+            ctx.fail("%s: on the same field repeated %d times (%d cells, %s layout) the command fails: %s %s" % (c.cmd, k, ins[0].size, layout, o.get("kind"), o.get("cls")), desc)
+            continue
+        r = o["result"]
+        rd, rm = numpy.ma.getdata(r), numpy.ma.getmaskarray(r)
+        if r.shape != want_d.shape or r.dtype != small.dtype:
+            ctx.fail("%s: on the same field repeated %d times (%d cells, %s layout) the result has shape %r and element type %s; repeating the small result gives %r, %s" % (
+                c.cmd, k, ins[0].size, layout, r.shape, r.dtype, want_d.shape, small.dtype), desc)
+            continue
+        with numpy.errstate(all="ignore"):
+            okv = numpy.isclose(rd, want_d, rtol=1e-9, atol=1e-9, equal_nan=True) | rm | want_m
+        if not numpy.array_equal(rm, want_m) or not okv.all():
+            j = int(numpy.flatnonzero((rm != want_m).ravel() | ~okv.ravel())[0])
+            ctx.fail("%s: on the same field repeated %d times (%d cells, %s layout), cell %d is %s where the small field gives %s" % (
+                c.cmd, k, ins[0].size, layout, j, "missing" if rm.ravel()[j] else repr(rd.ravel()[j].item()), "missing" if want_m.ravel()[j] else repr(want_d.ravel()[j].item())), desc)
+            continue
+        for i_, (a, (d0, m0)) in enumerate(zip(ins, before)):
+            keep = ~m0
+            if c.cmd in FUZZY_CONSUMERS:
+                with numpy.errstate(all="ignore"):
+                    keep = keep & (d0 >= -1) & (d0 <= 1)
+            if not numpy.array_equal(numpy.ma.getmaskarray(a), m0) or not numpy.array_equal(numpy.ma.getdata(a)[keep], d0[keep]):
+                ctx.fail("%s: on a field of %d cells (%s layout) the command changed its input no. %d (the stored result of another command)" % (c.cmd, ins[0].size, layout, i_), desc)
+                break
+
+
 def run_stream(ctx, model, cases, stream, tol=common.TOL, on_result=None, rerun=True, narrow=True, pipeline=True, layout=True, strict=True, payload=True, tile=True, exact=True, fault=True, plain=True):
     """runs cases on implementation and model, records disagreements; calls on_result(case, out, answer)"""
     outs = []
@@ -947,6 +999,17 @@ def run_stream(ctx, model, cases, stream, tol=common.TOL, on_result=None, rerun=
             d = _same(out, out6)
             if d:
                 ctx.fail("%s: with its inputs handed over as plain ndarrays (no cell missing) the outcome differs (%s)" % (c.cmd, d), c.describe())
+        if plain and out["status"] == "ok" and len(set(id(a) for a in c.inputs)) >= 2 and not numpy.ma.getmaskarray(c.inputs[0]).any() \
+                and any(numpy.ma.getmaskarray(a).any() for a in c.inputs[1:]) and out["vis"][3] is not None and ctx.rng.random() < 0.7:
+            # the first listed field is a plain ndarray (a plug-in's result, nothing missing in it), the others are masked arrays with missing cells:
+            # the missing cells of the others stay missing, the values are the same
+            out7 = run_impl(c, plain="first")
+            ctx.count("plain_first_twins")
+            if out7["status"] == "ok" and out7["vis"][0] == "plain":
+                out7 = dict(out7, vis=("masked",) + tuple(out7["vis"][1:]))
+            d = _same(out, out7)
+            if d:
+                ctx.fail("%s: with its first input handed over as a plain ndarray and the others as masked arrays the outcome differs (%s)" % (c.cmd, d), c.describe())
         if payload and out["status"] == "ok" and any(a.dtype.kind == "f" and numpy.ma.getmaskarray(a).any() for a in c.inputs) and ctx.rng.random() < 0.6:
             # what lies beneath a missing cell may be anything, NaN and infinities included (what masked_invalid or a reader leaves behind)
             ins = []
@@ -962,6 +1025,37 @@ def run_stream(ctx, model, cases, stream, tol=common.TOL, on_result=None, rerun=
             d = _same(out, out5)
             if d:
                 ctx.fail("%s: with NaN / infinity stored beneath the missing cells of its inputs the outcome differs (%s): hidden values leak" % (c.cmd, d), c.describe())
+        if tile and out["status"] == "ok" and COMMANDS[c.cmd][1] == "list" and 2 <= len(c.inputs) <= 6 and c.inputs[0].size <= 64 \
+                and c.cmd not in ctx.__dict__.setdefault("_long_done", set()) and any(numpy.ma.getmaskarray(a).any() for a in c.inputs) \
+                and not all(numpy.ma.getmaskarray(a).all() for a in c.inputs):
+            # once per command and check: the same fields listed over and over until the list has 70 and 150 entries (beyond any threshold at which a body may
+            # switch to a stacked or vectorised path), some cells missing in some of the fields only: compared with the model like any other case
+            ctx._long_done.add(c.cmd)
+            for n_ in (70, 150):
+                ins = [c.inputs[j % len(c.inputs)] for j in range(n_)]
+                params = dict(c.params)
+                if "Weights" in params and len(params["Weights"]) == len(c.inputs):
+                    params["Weights"] = [params["Weights"][j % len(c.inputs)] for j in range(n_)]
+                if "NumberToConsider" in params and isinstance(params["NumberToConsider"], int):
+                    params["NumberToConsider"] = max(1, min(n_, params["NumberToConsider"] * (n_ // len(c.inputs))))
+                lc = Case(c.cmd, params, ins)
+                if near_discontinuity(lc):
+                    continue
+                lo = run_impl(lc)
+                la = model.ask([lc.line()])[0]
+                ctx.count("long_list_twins")
+                if la.startswith("err raw Degenerate") or la.startswith("err raw NotAdmissible"):
+                    continue
+                d = compare(lo, la, tol)
+                if d:
+                    ctx.disagree(stream + ":long-list", lc.describe(), impl_summary(lo)[:300], la[:300] + " :: " + d)
+                    ctx.fail("%s over a list of %d fields (the same %d fields listed again and again): %s" % (c.cmd, n_, len(c.inputs), d), dict(c.describe(), listed=n_))
+        if tile and out["status"] == "ok" and out["vis"][3] is not None and c.inputs and c.inputs[0].ndim >= 1 and 1 <= c.inputs[0].size <= 64 and len(c.inputs) <= 6 \
+                and isinstance(out.get("result"), numpy.ndarray) and out["result"].shape == c.inputs[0].shape and c.cmd not in ctx.__dict__.setdefault("_huge_done", set()) \
+                and (c.inputs[0].ndim >= 2 or ctx.evaluations > 40):
+            # once per command and check (preferably on a grid): the field at scale
+            ctx._huge_done.add(c.cmd)
+            huge_twin(ctx, c, out)
         if tile and out["status"] == "ok" and out["vis"][3] is not None and c.inputs and c.inputs[0].ndim >= 1 and c.inputs[0].size >= 1 and ctx.rng.random() < 0.04:
             tile_twin(ctx, c, out, ctx.rng.choice([700, 1200, 17000]) // max(1, c.inputs[0].size // 8 + 1) + 2)
         if pipeline and not trivial:
